@@ -126,3 +126,10 @@ Example C08_nw_nonvacuous :
   | Err _ => false
   end = true.
 Proof. vm_compute. reflexivity. Qed.
+
+(* Part 5: the top-level port names <endpoint>_<protocol> of an accepted description are pairwise distinct (repair
+   8.17: endpoint `a` with protocol `b_c` next to endpoint `a_b` with protocol `c` used to declare `a_b_c_req_i`
+   twice). *)
+Theorem C08_model_port_names_distinct : forall d g c, compile d g = Ok c -> NoDup (port_base_names d).
+Proof. exact compile_port_names_nodup. Qed.
+Print Assumptions C08_model_port_names_distinct.
